@@ -531,9 +531,17 @@ namespace sim
         T* allocate(size_t n)
         {
             if (fault_hit(FK_ALLOC)) throw std::bad_alloc();
-            return static_cast<T*>(::operator new(n * sizeof(T)));
+            if (n > (size_t(1) << 40) / sizeof(T)) throw std::bad_alloc();          // more than this machine has: refused, as a real allocator would
+            void* p = ::operator new(n * sizeof(T));
+            std::memset(p, 0xA5, n * sizeof(T));                                    // fresh memory is not zero
+            return static_cast<T*>(p);
         }
         void deallocate(T* p, size_t) noexcept { ::operator delete(p); }
+        // a default-initialising allocator (a common idiom): "default-inserted" elements of trivial type are left as the memory
+        // was, so a container that needs zeros has to ask for them
+        template <class U> void construct(U* p) { ::new (static_cast<void*>(p)) U; }
+        template <class U, class A0, class... Args>
+        void construct(U* p, A0&& a0, Args&&... args) { ::new (static_cast<void*>(p)) U(std::forward<A0>(a0), std::forward<Args>(args)...); }
         template <class U> bool operator==(const FailingAllocator<U>&) const noexcept { return true; }
         template <class U> bool operator!=(const FailingAllocator<U>&) const noexcept { return false; }
     };
